@@ -252,6 +252,14 @@ impl<'a, K: HKey> Ctx<'a, K> {
             if !self.open_txs.is_empty() { return; }
             self.expect("close", "ok");
             self.op("trace");
+            // C20: the files, read without the library, must describe the state the next open shows
+            let described = crate::reader::described_state(&self.s.dir);
+            if let Some(d) = &described {
+                let want: std::collections::BTreeSet<String> = self.map.iter().map(|(k, c)| format!("{}:{}:{}", hx(&k.enc()), b3(c), c.len())).collect();
+                if crate::reader::as_set(d) != want {
+                    self.fail(format!("C20: after a clean close the files describe {:?}, the ordered-map oracle says {want:?}", crate::reader::as_set(d)));
+                }
+            }
             if self.rng.chance(1, 3) {
                 // the plain entry point (its own integrity gate, stats dropped)
                 let r = self.op("openplain");
